@@ -26,6 +26,8 @@ ENV = dict(os.environ, CARGO_NET_OFFLINE='true', CARGO_TARGET_DIR=os.path.join(B
 
 FORBIDDEN = re.compile(r'\b(Admitted|admit|Axiom|Parameter|Conjecture|Unset Guard|bypass_check|type-in-type|impredicative-set)\b')
 
+TRANSLATOR_ERRORS = []
+
 class BuildError(Exception):
     def __init__(self, stage, log):
         super().__init__(stage); self.stage = stage; self.log = log
@@ -58,9 +60,21 @@ def regen_tables():
         raise BuildError('gen_tables', out[-3000:])
     rs2v = os.path.join(ROOT, 'checks', 'rs2v.py')
     if os.path.exists(rs2v):
-        rc, out = sh(['python3', rs2v, '--repo', REPO, '--out', os.path.join(COQ, 'Gen', 'LichessSchema.v')])
+        target = os.path.join(COQ, 'Gen', 'LichessSchema.v')
+        rc, out = sh(['python3', rs2v, '--repo', REPO, '--out', target + '.new'])
         if rc != 0:
-            raise BuildError('rs2v', out[-3000:])
+            # the translator does not understand the tree any more: the regenerated obligation C19_schemas is broken.
+            # Keep the previous schema (if any) so that the model still runs and the correspondence can look for a
+            # concrete failing document.
+            TRANSLATOR_ERRORS.append('rs2v: ' + out.strip()[-1500:])
+            if not os.path.exists(target):
+                raise BuildError('rs2v', out[-3000:])
+        else:
+            new = open(target + '.new').read()
+            if not os.path.exists(target) or open(target).read() != new:
+                open(target, 'w').write(new)
+        if os.path.exists(target + '.new'):
+            os.remove(target + '.new')
 
 def coq_files():
     fs = []
@@ -174,10 +188,45 @@ def corpus(family):
         return []
     return [l.rstrip('\n') for l in open(p) if l.strip() and not l.startswith('#')]
 
+def vm_crosscheck(family, cases, observed):
+    """Cross-check of the extraction: evaluate the same Coq definitions INSIDE Coq (vm_compute) on a sample of the
+    cases and compare with what the extracted OCaml program printed. Returns (number checked, list of mismatches)."""
+    d = os.path.join(BUILD, 'vmcheck')
+    os.makedirs(d, exist_ok=True)
+    def lit(s):
+        return '[' + '; '.join(str(ord(ch)) for ch in s) + ']'
+    src = ['Require Import Ink.Lib.Str.', 'Require Import NArith List.', 'Import ListNotations.', 'Require Import Ink.Gen.Tables Ink.Driver.Run.', 'Open Scope N_scope.',
+           'Definition fam : str := %s.' % lit(family),
+           'Definition inputs : list str := [%s].' % ';\n  '.join(lit(c) for c in cases),
+           'Eval vm_compute in (map (fun l => run tables fam l) inputs).']
+    path = os.path.join(d, 'cases_%s.v' % re.sub(r'\W', '_', family))
+    open(path, 'w').write('\n'.join(src) + '\n')
+    rc, out = sh(['coqc', '-noglob', '-Q', COQ, 'Ink', path], cwd=d, timeout=3000)
+    if rc != 0:
+        return 0, ['coqc failed: ' + out[-500:]]
+    m = re.search(r'=\s*(\[.*\])\s*:\s*list', out, re.S)
+    if not m:
+        return 0, ['cannot parse coqc output']
+    body = m.group(1).replace('\n', ' ')
+    body = re.sub(r'%N', '', body)
+    import ast
+    vals = ast.literal_eval(body.replace(';', ','))
+    got = [''.join(chr(x) for x in v) for v in vals]
+    bad = [(c, g, o) for c, g, o in zip(cases, got, observed) if g != o]
+    return len(got), bad
+
+def coqchk(pid):
+    """Independent re-check of the compiled property file and everything it depends on; returns the axiom report."""
+    rc, out = sh(['coqchk', '-silent', '-o', '-Q', COQ, 'Ink', 'Ink.Properties.' + pid], cwd=COQ, timeout=3000)
+    ax = out[out.find('CONTEXT SUMMARY'):] if 'CONTEXT SUMMARY' in out else out[-800:]
+    return rc == 0, ax.strip()[:1500]
+
 # ------------------------------------------------------------------ proofs
 def check_proofs(pid, coq_ok, coq_log):
     """Re-compile Properties/<pid>.v, count pinned theorems and read Print Assumptions."""
     res = {'obligations': 0, 'discharged': 0, 'axioms': [], 'theorems': [], 'errors': []}
+    if pid == 'C19' and TRANSLATOR_ERRORS:
+        res['errors'] += TRANSLATOR_ERRORS
     path = os.path.join(COQ, 'Properties', pid + '.v')
     if not os.path.exists(path):
         res['errors'].append('no Properties/%s.v' % pid)
@@ -219,6 +268,7 @@ class Result:
     def __init__(self, pid, tier, seed):
         self.pid, self.tier, self.seed = pid, tier, seed
         self.violations = []      # (replay dict, suffix)
+        self.vm_checked = set(); self.vm_lines = 0
         self.ties = []            # (family, case, model obs, impl obs): correspondence breaks below the property level
         self.known = []           # strings
         self.evaluations = 0
